@@ -445,6 +445,8 @@ theorem Inv_step {s : Sys} (o : Op) (h : Inv s) : Inv (step s o).1 := by
     cases hcx : s.ctxs[c]? with
     | none => exact h
     | some cx => exact Inv_bump hcx h
+  | recreate => exact Inv_congr (s := s) rfl rfl rfl h
+  | stopCtx c => exact h
 
 theorem Inv_exec {s : Sys} (ops : List Op) (h : Inv s) : Inv (exec s ops) := by
   induction ops generalizing s with
@@ -665,6 +667,8 @@ theorem step_total {s : Sys} {op : Op} (halive : s.dead = none) :
   | newCtx name nonce => exact ⟨halive, by simp [step]⟩
   | newProxy c => simp only [step]; split <;> exact ⟨halive, by simp⟩
   | burn c => simp only [step]; split <;> exact ⟨halive, by simp⟩
+  | recreate => simp [step]
+  | stopCtx c => exact ⟨halive, by simp [step]⟩
   | lock p custom =>
     simp only [step]
     cases hp : s.proxies[p]? with
@@ -792,6 +796,8 @@ theorem Holder_step {s : Sys} (o : Op) (hh : o.honest) (h : Holder s) : Holder (
   cases o with
   | newCtx name nonce => exact Holder_congr rfl rfl h
   | burn c => simp only [step]; split <;> exact Holder_congr rfl rfl h
+  | recreate => exact Holder_congr (s := s) rfl rfl h
+  | stopCtx c => exact h
   | newProxy c =>
     simp only [step]
     split
